@@ -276,7 +276,7 @@ def _is_constlike(e: ast.expr) -> bool:
         root = e
         while isinstance(root, ast.Attribute):
             root = root.value
-        if isinstance(root, ast.Name) and root.id in ('np', 'numpy', 'tp', 'datetime', 'operator', 'os'):
+        if isinstance(root, ast.Name) and (root.id in ('np', 'numpy', 'tp', 'datetime', 'operator', 'os') or root.id.isupper()):
             return True         # np.ndarray, np.nan, ... : names of the library, not values of the program
     return False
 
